@@ -15,6 +15,8 @@
 package searcher
 
 import (
+	"bytes"
+
 	"github.com/blugelabs/bluge/search"
 )
 
@@ -28,6 +30,12 @@ func NewTermRangeSearcher(indexReader search.Reader,
 
 	if max != nil && inclusiveMax {
 		max = append(max, 0)
+	}
+
+	if max != nil && bytes.Compare(min, max) >= 0 {
+		// an empty or inverted range selects nothing; the dictionary iterator must not
+		// be asked, it does not compare its first candidate with the end key
+		return NewMatchNoneSearcher(indexReader, options)
 	}
 
 	fieldDict, err := indexReader.DictionaryIterator(field, nil, min, max)
